@@ -64,7 +64,7 @@ type Config struct {
 	DurMode     int    `json:"dur_mode"` // 0 small, 1 mixed, 2 huge
 	WeightMode  int    `json:"weight_mode"`
 	Keys        int    `json:"keys"`
-	WBase       uint64 `json:"w_base"` // the weigher is built around this value (the source's maximum)
+	WBase       uint64 `json:"w_base"`                    // the weigher is built around this value (the source's maximum)
 	Queued      bool   `json:"queued_executor,omitempty"` // the executor only queues; tasks run when the case says so
 }
 
@@ -322,13 +322,13 @@ func boomFor(x int) error {
 }
 
 type loadPlan struct {
-	Out     int   // outcome of a single load / of a bulk load
-	Shape   int   // bulk: 0 full, 1 partial, 2 extra, 3 empty map, 4 nil map, 5 partial with extra keys
+	Out     int    // outcome of a single load / of a bulk load
+	Shape   int    // bulk: 0 full, 1 partial, 2 extra, 3 empty map, 4 nil map, 5 partial with extra keys
 	Mask    uint64 // which requested keys a partial result contains
-	Extra   []int // extra keys volunteered
-	PanicOf int   // 0 error value, 1 string, 2 the ErrNotFound value, 3 an error wrapping ErrNotFound
-	Nested  int   // 1: Compute answering CancelOp, 2: ComputeIfAbsent answering cancel, run on the key from inside the loader
-	Adv     int64 // the loader takes this long on the cache's clock
+	Extra   []int  // extra keys volunteered
+	PanicOf int    // 0 error value, 1 string, 2 the ErrNotFound value, 3 an error wrapping ErrNotFound
+	Nested  int    // 1: Compute answering CancelOp, 2: ComputeIfAbsent answering cancel, run on the key from inside the loader
+	Adv     int64  // the loader takes this long on the cache's clock
 }
 
 // Env wires one cache to the log.
